@@ -162,9 +162,9 @@ impl Gen {
         if self.rng.chance(40) && value_valid(c, &Val::Str(String::new())) {
             return String::new();
         }
-        if self.allow_long && w == 0 && matches!(cat, None | Some("Text")) && self.rng.chance(4) {
+        if self.allow_long && w == 0 && matches!(cat, None | Some("Text")) && self.rng.chance(8) {
             self.serial += 1;
-            let len = *self.rng.pick(&[65536u32, 65537, 65535 + 4096, 131072, 70000]) + if self.rng.chance(500) { 0 } else { self.rng.below(3000) as u32 };
+            let len = *self.rng.pick(&[65535u32, 65536, 65537, 65535 + 4096, 131072, 70000]) + if self.rng.chance(500) { 0 } else { self.rng.below(3000) as u32 };
             return long_string(self.serial, len);
         }
         let lower = cat == Some("LowerCase");
@@ -1412,7 +1412,7 @@ pub fn gen_foreign_spec(rng: &mut Prng, big: bool) -> ForeignSpec {
     // one very long string now and then
     if rng.chance(50) && cp != 0 {
         g.serial += 1;
-        let s = long_string(g.serial, *rng.pick(&[65536u32, 65536, 65537, 131072, 70000]) + if rng.chance(600) { 0 } else { rng.below(3000) as u32 });
+        let s = long_string(g.serial, *rng.pick(&[65535u32, 65536, 65536, 65537, 131072, 70000]) + if rng.chance(600) { 0 } else { rng.below(3000) as u32 });
         let mut c = ColSpec::new("Blob", CType::Str(0));
         c.nullable = true;
         let mut k = ColSpec::new("Id", CType::I16);
